@@ -26,6 +26,7 @@ Record pcase := PC {
   pc_files : list (obs problemv);
   pc_obs : obs problemv;
   pc_rt : bool;
+  pc_fresh_after : list string;      (* names in Domain().types after combine_problems / export_combined_problem *)
   pc_expect : option problemv
 }.
 
@@ -48,9 +49,12 @@ Definition opt_eqb (a b : option string) : bool :=
   | _, _ => false
   end.
 
-(* ---------------------------------------------------------------- equality of observables (as maps / sets) *)
+(* ---------------------------------------------------------------- equality of observables (as maps / sets).
+   Only what the property names: types, constants, predicates, functions, actions / objects, facts, fluent
+   values, goals.  The domain name, the requirements and the problem name cross the boundary and are shown by
+   [explain], but neither the agreement nor the oracle looks at them (the code takes them from the file found
+   last, C17_name_reqs_last; a change there is outside C17). *)
 Definition domain_eqb (a b : domainv) : bool :=
-  opt_eqb (d_name a) (d_name b) && set_equiv_b (d_reqs a) (d_reqs b) &&
   map_equiv_b (d_types a) (d_types b) && map_equiv_b (d_consts a) (d_consts b) &&
   map_equiv_b (d_preds a) (d_preds b) && map_equiv_b (d_funcs a) (d_funcs b) &&
   map_equiv_b (d_acts a) (d_acts b).
@@ -74,7 +78,7 @@ Definition pairs_union_b (ds : list (list (string * string))) (c : list (string 
   forallb (fun d => forallb (fun kv => mem_pair kv c) d) ds.
 
 Definition problem_eqb (a b : problemv) : bool :=
-  String.eqb (p_name a) (p_name b) && map_equiv_b (p_objs a) (p_objs b) &&
+  map_equiv_b (p_objs a) (p_objs b) &&
   map_equiv_b (p_fluents a) (p_fluents b) && pairs_equiv_b (flat (p_facts a)) (flat (p_facts b)) &&
   nodup_b (keys (p_facts a)) && nodup_b (keys (p_facts b)) &&
   set_equiv_b (p_goals a) (p_goals b) && set_equiv_b (p_ngoals a) (p_ngoals b).
@@ -97,12 +101,6 @@ Definition p_model (c : pcase) : obs problemv :=
 Definition section_ok (ds : list alist) (c : alist) : bool :=
   if agree_b ds then union_of_b ds c else weak_union_of_b ds c.
 
-Definition name_ok (names : list (option string)) (n : option string) : bool :=
-  match names with
-  | [] => true
-  | _ => existsb (opt_eqb n) names
-  end.
-
 Definition dummy_preds : alist := [(DUMMY_PRED, DUMMY_PRED_TEXT)].
 Definition dummy_acts : alist := [(DUMMY_ADD, DUMMY_ADD_TEXT); (DUMMY_DEL, DUMMY_DEL_TEXT)].
 
@@ -119,12 +117,13 @@ Definition d_checks (c : dcase) : list (string * bool) :=
        ("functions", section_ok (map d_funcs fs) (d_funcs r));
        ("actions", section_ok ((if dm then [dummy_acts] else []) ++ map d_acts fs) (d_acts r)
                    && (negb dm || forallb (fun kv => mem_pair kv (d_acts r)) dummy_acts));
-       ("requirements", set_union_of_b (map d_reqs fs) (d_reqs r));
-       ("name", name_ok (map d_name fs) (d_name r));
        ("default types untouched", set_equiv_b (dc_fresh_after c) ["object"]);
        ("other domains untouched", dc_others_same c);
-       (* files that contradict each other about a type can give a dictionary in which a type precedes its
-          parent; re-reading that is C06's subject (single-pass parse_types, D03), not demanded here *)
+       (* files that contradict each other about the parent of a type give a combination whose type objects
+          are mixed: the dictionary holds the last file's declaration of the type, but a subtype declared by
+          another file still points to that file's own (losing) declaration, so its ancestor chain differs
+          from the one obtained by re-reading the exported names.  Such a combination is not one domain;
+          what the property demands of contradicting files is the weak union only *)
        ("export/re-parse", dc_rt c || negb (agree_b (dc_defaults c :: map d_types fs)));
        ("equals the unsplit domain",
         match dc_expect c with
@@ -148,8 +147,8 @@ Definition p_checks (c : pcase) : list (string * bool) :=
        ("facts", pairs_union_b (map (fun f => flat (p_facts f)) fs) (flat (p_facts r)));
        ("goals", set_union_of_b (map p_goals fs) (p_goals r));
        ("numeric goals", set_union_of_b (map p_ngoals fs) (p_ngoals r));
-       ("name", match fs with [] => true | _ => existsb (fun f => String.eqb (p_name f) (p_name r)) fs end);
        ("export/re-parse", pc_rt c);
+       ("default types untouched", set_equiv_b (pc_fresh_after c) ["object"]);
        ("equals the unsplit problem",
         match pc_expect c with None => true | Some e => problem_eqb r e end)]
   end.
